@@ -351,7 +351,7 @@ func main() {
 		t0 := time.Now()
 		c.Set("phase_selftest_s", time.Since(c0).Seconds())
 
-		passwords := []string{"empty", "ascii", "utf8"}
+		passwords := []string{"empty", "utf8"} // "ascii" is the password of the wrong-password and zero-top cases
 		salts := [][2]string{{"8:count", "16:stream:s2"}, {"0:zero", "0:zero"}}
 		secrets := []string{"1", "ff256", "stream256"}
 		groups := []string{"telegram/3", "rfc3526-14/2", "gen1/7"}
@@ -391,6 +391,34 @@ func main() {
 			"crypto/sha512, crypto/hmac, math/big; self-tested at start against the SRP page's worked example and published PBKDF2 vectors; " +
 			"srp_B restricted to 0 < B < p (the page defines nothing else); SHA-256 collisions / M1 coincidences for a wrong password are neglected; " +
 			"'any group' is covered by 6 embedded 2048-bit safe primes, 'any password/salt/secret' by the listed alphabet")
+
+		// zero-top: every group of this tier; two-zero-byte variants of the cheap quantities on the
+		// production group (thorough: every group), of s_a on the production group in thorough only
+		two := map[string]bool{"telegram/3": true}
+		saTwo := map[string]bool{}
+		if c.Thorough() {
+			for _, g := range groups {
+				two[g] = true
+			}
+			saTwo["telegram/3"] = true
+		}
+		zcases, missing := ztSearch(c, groups, two, saTwo, workers)
+		c.Set("phase_zero_search_s", time.Since(t0).Seconds())
+		if len(missing) > 0 {
+			fmt.Fprintln(os.Stderr, "C15: INFRASTRUCTURE: zero-top search found no case for", missing)
+			os.Exit(2)
+		}
+		kit.Parallel(len(zcases), workers, func(i int) {
+			if zero.Eval(zcases[i]) {
+				c.AddInt("zero_top_cases", 1)
+				c.AddInt(fmt.Sprintf("zero_top_cases_%s_%dB", zcases[i].Quantity, zcases[i].ZeroBytes), 1)
+			}
+		})
+		if ztVacuous.Load() > 0 {
+			fmt.Fprintln(os.Stderr, "C15: INFRASTRUCTURE: zero-top witnesses without the property; no verdict")
+			os.Exit(2)
+		}
+		c.Set("phase_zero_s", time.Since(t0).Seconds())
 
 		var cases []wAnswer
 		for _, pw := range passwords {
@@ -442,33 +470,6 @@ func main() {
 
 		c.Set("phase_answer_s", time.Since(t0).Seconds())
 
-		// zero-top: every group of this tier; two-zero-byte variants of the cheap quantities on the
-		// production group (thorough: every group), of s_a on the production group in thorough only
-		two := map[string]bool{"telegram/3": true}
-		saTwo := map[string]bool{}
-		if c.Thorough() {
-			for _, g := range groups {
-				two[g] = true
-			}
-			saTwo["telegram/3"] = true
-		}
-		zcases, missing := ztSearch(c, groups, two, saTwo, workers)
-		c.Set("phase_zero_search_s", time.Since(t0).Seconds())
-		if len(missing) > 0 {
-			fmt.Fprintln(os.Stderr, "C15: INFRASTRUCTURE: zero-top search found no case for", missing)
-			os.Exit(2)
-		}
-		kit.Parallel(len(zcases), workers, func(i int) {
-			if zero.Eval(zcases[i]) {
-				c.AddInt("zero_top_cases", 1)
-				c.AddInt(fmt.Sprintf("zero_top_cases_%s_%dB", zcases[i].Quantity, zcases[i].ZeroBytes), 1)
-			}
-		})
-		if ztVacuous.Load() > 0 {
-			fmt.Fprintln(os.Stderr, "C15: INFRASTRUCTURE: zero-top witnesses without the property; no verdict")
-			os.Exit(2)
-		}
-		c.Set("phase_zero_s", time.Since(t0).Seconds())
 		var inv []wInvalid
 		var cands []string
 		for _, g := range refexchange.Groups() {
